@@ -172,7 +172,7 @@ def stream_plan(rnd, pid, small=True):
         chans = [p[pos:pos + bs] for p in pcm]
         pos += bs
         assign = "indep"
-        if channels == 2 and bps <= 31 and rnd.random() < 0.7:
+        if channels == 2 and rnd.random() < 0.7:
             assign = rnd.choice(["ls", "sr", "ms"])
         L, R = chans[0], chans[1] if channels >= 2 else chans[0]
         side = [l - r for l, r in zip(L, R)]
@@ -184,7 +184,13 @@ def stream_plan(rnd, pid, small=True):
             vals, depths = [side, R], [bps + 1, bps]
         elif assign == "ms":
             vals, depths = [mid, side], [bps, bps + 1]
-        subs = [make_sub(rnd, vals[c], bs, depths[c]) for c in range(channels)]
+        if bps == 32 and assign != "indep":
+            # 33-bit side channel: FlacGen writes it CONSTANT or VERBATIM only (pair arithmetic in the model)
+            sidx = 0 if assign == "sr" else 1
+            subs = [({"type": "constant" if all(x == side[0] for x in side) and rnd.random() < 0.7 else "verbatim", "wasted": 0} if c == sidx
+                     else make_sub(rnd, vals[c], bs, depths[c])) for c in range(channels)]
+        else:
+            subs = [make_sub(rnd, vals[c], bs, depths[c]) for c in range(channels)]
         fr = {"bs": bs, "chassign": assign, "subs": subs,
               "bscode": rnd.choice(["auto", "auto", "8", "16"]), "overlong": rnd.choice([0, 0, 0, 1])}
         if fr["bscode"] == "8" and bs > 256:
@@ -246,3 +252,33 @@ def mutate(rnd, plan, pid):
         names.append("maxbs-small")
     p["class"] = "+".join(sorted(set(names)))
     return p
+
+
+def wide_pair(v):
+    return [v >> 16, v & 0xFFFF]
+
+
+def directed_malformed(start_id):
+    """hand-made frames no random mutation reaches: the forbidden residual -2^31, and 33-bit side channels at the
+    extremes of their range next to full-scale 32-bit channels"""
+    out = []
+    k = start_id
+    MIN = -(1 << 31)
+    for order, pcm in ((0, [0, 1, MIN, -1, 5, MIN, 7, 0]), (1, [1 << 30, -(1 << 30), 0, 3, 1 << 30, -(1 << 30), 0, 0]),
+                       (0, [MIN] * 8), (2, [0, 1 << 29, -(1 << 30), 0, 0, 0, 0, 0])):
+        for rice in (28, 30):
+            k += 1
+            out.append({"id": k, "channels": 1, "bps": 32, "rate": 44100, "bpscode": "hdr", "selfcheck": False, "class": "minneg-residual",
+                        "frames": [{"bs": 8, "subs": [{"type": "fixed", "order": order, "method": 1, "po": 0, "params": [["rice", rice]], "ov": {"minneg": 1}}]}],
+                        "pcm": [pcm]})
+    lo, hi = -(1 << 32) + 1, (1 << 32) - 1
+    edge = [MIN, (1 << 31) - 1]
+    for assign in ("ls", "sr", "ms"):
+        for vals in ([lo], [hi], [lo - 1], [lo, hi], [hi, -1, lo, 0, 1, -3, 3, hi - 1]):
+            k += 1
+            raw = {"type": "verbatim", "ov": {"wide": [wide_pair(x) for x in vals]}}
+            plain = {"type": "verbatim"}
+            out.append({"id": k, "channels": 2, "bps": 32, "rate": 44100, "bpscode": "hdr", "selfcheck": False, "class": "raw-side-33",
+                        "frames": [{"bs": 8, "chassign": assign, "subs": [raw, plain] if assign == "sr" else [plain, raw]}],
+                        "pcm": [[edge[i % 2] for i in range(8)], [edge[(i + 1) % 2] for i in range(8)]]})
+    return out
